@@ -24,6 +24,7 @@ import (
 
 	"github.com/openconfig/gnmi/cache"
 	"github.com/openconfig/gnmi/ctree"
+	"github.com/openconfig/gnmi/metadata"
 	"github.com/openconfig/gnmi/subscribe"
 	"github.com/openconfig/gnmi/verifhook"
 	"google.golang.org/grpc/codes"
@@ -564,7 +565,16 @@ func concTrial(r *vlib.Run, trial int, rng *rand.Rand) {
 	t.nPer = 60 + rng.Intn(440)
 	t.midK = 1 + int64(rng.Intn(t.nPer))
 
-	t.c = cache.New(t.targets)
+	// Half of the trials configure a server name (see the history mode).
+	srvName := ""
+	if rng.Intn(2) == 0 {
+		srvName = "srv-conc"
+		t.c = cache.New(t.targets, cache.WithServerName(srvName))
+	} else {
+		metadata.UnregisterServerNameMetadata()
+		t.c = cache.New(t.targets)
+	}
+	initStr := renderStrs(t.c.Metadata()[t.x])
 	t.srv, _ = subscribe.NewServer(t.c)
 	windowKind := []string{"x-stream", "star-stream"}[rng.Intn(2)]
 	t.c.SetClient(func(l *ctree.Leaf) {
@@ -749,8 +759,10 @@ func concTrial(r *vlib.Run, trial int, rng *rand.Rand) {
 	var stopOnce sync.Once
 	stopRefreshers := func() { stopOnce.Do(func() { close(stopRefresh) }) }
 	var refreshCalls [2]int64
+	var rwg sync.WaitGroup
 	teardown := func() {
 		stopRefreshers()
+		rwg.Wait()
 		t.mu.Lock()
 		subs := append([]*csub{}, t.subs...)
 		t.mu.Unlock()
@@ -784,7 +796,6 @@ func concTrial(r *vlib.Run, trial int, rng *rand.Rand) {
 		}
 	}
 	// 1b. The periodic refreshes of the collector run during the whole trial.
-	var rwg sync.WaitGroup
 	for i, fn := range []func(){t.c.UpdateMetadata, t.c.UpdateSize} {
 		i, fn := i, fn
 		if i >= t.refresh {
@@ -898,8 +909,15 @@ func concTrial(r *vlib.Run, trial int, rng *rand.Rand) {
 		wg.Wait()
 		return
 	}
-	// 5. After Reset the target's own update stream resumes.
+	// 5. After Reset the string metadata is what it was at creation; the
+	// target's own update stream resumes.
 	if t.op == "reset" {
+		r.Count("conc_reset_string_metadata_compared", 1)
+		if now := renderStrs(t.c.Metadata()[t.x]); now != initStr {
+			t.fail(nil, "reset-string-metadata-lost", fmt.Sprintf("after Reset(%q) returned its string metadata is [%s]; right after the target was created it was [%s]", t.x, now, initStr))
+			wg.Wait()
+			return
+		}
 		for i, n := 0, 5+rng.Intn(30); i < n; i++ {
 			t.upd(t.x, []string{croots[rng.Intn(3)], leafName(rng.Intn(t.nPer))})
 		}
